@@ -62,6 +62,8 @@ def same_lenient(v, w):
 
 def run(ctx):
     runner.prove(ctx, MODULE, THEOREMS, FILES)
+    from .. import limits
+    limits.recursion_probe(ctx, "C14")
     g = SchemaGen(ctx.rnd)
     vals = [g.plain_value(ctx.n(3, 4)) for _ in range(ctx.n(150, 1200))]
     if not ctx.quick():
@@ -75,6 +77,10 @@ def run(ctx):
     longs = [list(range(100, 120)), [float(i) for i in range(16)], [b"x"] * 16, ["s%d" % i for i in range(30)], {"k%02d" % i: i for i in range(20)},
              {"xs": list(range(18))}, [[1, 2.0, "s"] * 6]]
     vals += longs
+    # every edge scalar alone and nested
+    from ..substcorr import edge_scalars
+    for a in edge_scalars():
+        vals += [a, [a], {"k": a}, [1, [a, {"x": a}]]]
     # values in which the very same container object occurs at several positions (non-cyclic sharing)
     for _ in range(ctx.n(40, 300)):
         shared = ctx.rnd.choice([[1, 2], {"a": 1}, [], {}, [[0]], {"k": [1]}])
@@ -140,7 +146,11 @@ def run(ctx):
         except encode.Unencodable:
             reqs = reqs[:len(exp)]
     # other kinds are refused with ValueError
-    for bad in gen_value.zoo():
+    from d42 import optional
+    # the library's own markers as DATA: dicts whose keys are `optional(...)` objects or `...` are not plain values
+    dsl_marked = [{optional("a"): 1}, {"a": 1, optional("b"): 2}, {optional("a"): {optional("b"): 1}}, {...: ...}, {"a": 1, ...: ...},
+                  optional("a"), [optional("a")]]
+    for bad in gen_value.zoo() + dsl_marked:
         if gen_value.is_plain(bad):
             continue
         for v in (bad, [1, bad], {"a": {"b": [bad]}}):
